@@ -20,16 +20,14 @@ def clock_obligations(R, P, p, label):
         R.obligation(f'{label}: SystemTimeSteppedBackward only when a parsable stored time is later than the sampled time',
                      p.pc, z3.And(P.lkt_present, P.lkt_parses, nows[-1] < P.lkt), group=label + '/backward-err-justified')
         R.obligation(f'{label}: a backward clock is reported before any write of latest_known_time',
-                     p.pc, z3.BoolVal(not p.writes('/ds/latest_known_time.json')), group=label + '/backward-no-write')
+                     p.pc, z3.BoolVal(not [e for e in p.events if e[0] in ('fs.write', 'fs.rename', 'fs.open_trunc') and 'latest_known_time' in str(e[1:])]), group=label + '/backward-no-write')
     else:
         for t in nows:
             R.obligation(f'{label}: no sampled time earlier than a parsable stored latest-known-time is ever used',
                          p.pc, z3.Not(z3.And(P.lkt_present, P.lkt_parses, t < P.lkt)), group=label + '/backward-guard')
         if nows and p.ok:
-            w = p.writes('/ds/latest_known_time.json')
             R.obligation(f'{label}: the sampled time is recorded as latest-known-time',
-                         p.pc, z3.BoolVal(len(w) >= 1 and isinstance(w[-1][2], Obj) and w[-1][2].kind == 'json' and z3.is_expr(w[-1][2].d['val']) and z3.eq(w[-1][2].d['val'], nows[-1])),
-                         group=label + '/time-recorded')
+                         p.pc, z3.BoolVal(p.stored_value_is('/ds/latest_known_time.json', nows[-1])), group=label + '/time-recorded')
 
 def check(R, tier):
     I = R.interp('tough'); install_world(I)
@@ -57,7 +55,7 @@ def check(R, tier):
                 R.obligation(f'{label}: ExpiredMetadata only under Safe and only if now > expires', p.pc,
                              z3.And(P.safe, nows[-1] >= Exp(P.served)), group=label + '/expired-err-justified')
                 R.obligation(f'{label}: ExpiredMetadata names role {role}', p.pc, z3.BoolVal(role_of_error(p.payload) == RT.index(role)), group=label + '/expired-role')
-                R.obligation(f'{label}: an expired document is not persisted', p.pc, z3.BoolVal(not [e for e in p.events if e[0] == 'fs.write' and not e[1].endswith('latest_known_time.json')]),
+                R.obligation(f'{label}: an expired document is not persisted', p.pc, z3.BoolVal(not p.touched()),
                              group=label + '/expired-not-stored')
             if not nows:
                 pass
